@@ -884,10 +884,16 @@ Lemma run_step_indep m Hd Hd' s :
   (forall k e, In (k, e) (mz_entries m) -> entry_uses (mz_hasher m) e) ->
   via_options s = true -> run_step T Hd m s = run_step T Hd' m s.
 Proof.
-  intros Hu Hv. destruct s as [|pk parts|pk parts|pk parts|pk parts|parts v|v];
-    try (destruct pk; [|discriminate]); try reflexivity.
+  intros Hu Hv.
+  assert (Hmk : forall pk parts, pk <> PKPackage ->
+            mk_path Hd m pk parts = mkpath parts (Some (mz_hasher m)) /\
+            mk_path Hd' m pk parts = mkpath parts (Some (mz_hasher m))).
+  { intros pk parts Hpk. destruct pk; try contradiction; split; reflexivity. }
+  destruct s as [|pk parts|pk parts|pk parts|pk parts|parts v|v]; try reflexivity;
+    try (assert (Hpk : pk <> PKPackage) by (intros ->; discriminate);
+         destruct (Hmk pk parts Hpk) as (E1 & E2); simpl; rewrite E1, E2; try reflexivity).
   - (* SEntry *)
-    simpl. f_equal. unfold mz_entry, mz_new_path, opt_new_path, path_mt_entry. simpl.
+    f_equal. unfold mz_entry, path_mt_entry. simpl.
     destruct (hash_path (mz_hasher m) parts) as [k| | |]; simpl; try reflexivity.
     destruct (assoc Z.eqb k (mz_entries m)) as [e|] eqn:Ha; simpl; try reflexivity.
     apply assoc_in in Ha. now rewrite (entry_kv_indep _ e Hd Hd' (Hu _ _ Ha)).
